@@ -357,6 +357,38 @@ class RealRun:
                 " ".join(enc_match(m) for m in ms))
 
 
+def _flex(node):
+    a = node.astNode
+    return isinstance(a, ast.BinOp) and isinstance(a.op, (ast.Add, ast.Mult))
+
+
+def cross_field_pairs(run):
+    """How the real matches of `run` pair nodes standing in DIFFERENT AST fields:
+    ("below-commutative", n) pairs at or below a `+` / `*` node of the pattern, operands themselves excepted
+    (operands may swap sides; below them the matcher compares no field at all: the recorded open finding),
+    ("elsewhere", n) anything else (the matcher is supposed to compare fields there)."""
+    below = elsewhere = 0
+    for m in run.raw or []:
+        for k, v in m.mappings.items():
+            if k.parent is None or v is m.match_root or k.field == v.field:
+                continue
+            if k.field == "none" or v.field == "none":
+                continue
+            if k.parent is not None and _flex(k.parent):
+                continue                                  # an operand: left / right may swap
+            n, under = k, False
+            while n is not None:
+                if _flex(n):
+                    under = True
+                    break
+                n = n.parent
+            if under:
+                below += 1
+            else:
+                elsewhere += 1
+    return below, elsewhere
+
+
 def pattern_names(t, out=None):
     """identifiers of the Name nodes of an abstract tree"""
     if out is None:
@@ -450,6 +482,36 @@ CORPUS_PAIRS = [
     ("(a + b) + c", "c + (b + a)"), ("a + b * c", "c * b + a"), ("_a_ + _b_ + _a_", "x + y + x"),
     ("def _f_(a, b=1, *c, d, **e):\n    pass", "def g(a, b=1, *c, d, **e):\n    return a"),
     ("____", "x = 1"), ("_x", "_x = 1"), ("__x_", "__x_ = 1"), ("_a__", "x = 1"),
+]
+
+
+# (program, pattern derived from it by C11's steps, {placeholder: identifier}) — hand-made derivations whose
+# random counterparts are rare: an argument with a default value below `+`, dunder attribute / argument names,
+# placeholders on every identifier-carrying position
+CORPUS_DERIVED = [
+    ("(lambda b=3: 1) + 0", "(lambda _b_=3: 1) + 0", {"_b_": "b"}),
+    ("(lambda b=3: b) * 2", "(lambda _b_=3: _b_) * 2", {"_b_": "b"}),
+    ("print(x.__class__)", "print(x.__class__)", {}),
+    ("print(x.__class__)", "print(_x_.__class__)", {"_x_": "x"}),
+    ("def f(__a__):\n    pass", "def f(__a__):\n    pass", {}),
+    ("class A:\n    def __init__(self, __v__=1):\n        self.__v__ = __v__", "def __init__(_self_, __v__=1):\n    _self_.__v__ = __v__",
+     {"_self_": "self"}),
+    ("def f(a, b=1, *c, d, **e):\n    return a", "def f(_a_, b=1, *c, d, **e):\n    return _a_", {"_a_": "a"}),
+    ("x = [i for i in y if i]", "x = [_i_ for _i_ in y if _i_]", {"_i_": "i"}),
+    ("g()\ng = 1", "_g_()\n_g_ = 1", {"_g_": "g"}),
+    ("def g(g):\n    return g", "def g(_g_):\n    return _g_", {"_g_": "g"}),
+    ("x = 1 + True + 1.0", "x = 1 + True + 1.0", {}),
+    ("def f():\n    global a, b\n    a = b", "def f():\n    global a, b\n    _a_ = b", {"_a_": "a"}),
+]
+
+# C11's last sentence — "generalising a matching pattern this way never loses the match" — for patterns that
+# are NOT taken from the program: (matching pattern, its generalisation, program)
+MONO_TRIPLES = [
+    ("x[a+b:]", "x[___:]", "x[:a+b]"), ("x[a*b:]", "x[__e__:]", "y = x[:a*b]"),
+    ("x[:a+1]", "x[:___]", "x[a+1:]"), ("x[(a+b)[c:]:]", "x[(a+b)[___:]:]", "x[:(a+b)[:c]]"),
+    ("x[a-b:]", "x[___:]", "x[:a-b]"), ("_a_ + 1", "___ + 1", "y = 1 + x"), ("f(a + b)", "f(___)", "f(b + a)"),
+    ("_x_ = _x_ + 1", "_x_ = ___ + 1", "i = 1 + i"), ("for _i_ in ___:\n    print(_i_)", "for ___ in ___:\n    print(___)", "for k in d:\n    print(k)"),
+    ("(a + b)(c)", "___(c)", "f(a + b, c)"), ("[a + b, c]", "[___, c]", "[c, a + b, c]"),
 ]
 
 
